@@ -332,11 +332,16 @@ class StringDataEncoding(DataEncoding):
                                  "This is an error since strings must be an integer numbers of bytes.")
             parsed_string = raw_string_buffer.read_as_bytes(strlen_bits).decode(self.encoding)
         elif self.termination_character is not None:
-            try:
-                tchar_byte_index = raw_string_buffer.index(self.termination_character)
-            except ValueError as exc:
+            # Only look for the termination character on character (code unit) boundaries. A bytewise search can
+            # match the trailing byte(s) of one character followed by the leading byte(s) of the next one in
+            # multi-byte encodings, e.g. b"\x00\x00" inside UTF-16BE b"\x01\x00\x00\x41".
+            char_width = 4 if "32" in self.encoding else 2 if "16" in self.encoding else 1
+            tchar_byte_index = raw_string_buffer.find(self.termination_character)
+            while tchar_byte_index % char_width != 0 and tchar_byte_index != -1:
+                tchar_byte_index = raw_string_buffer.find(self.termination_character, tchar_byte_index + 1)
+            if tchar_byte_index == -1:
                 raise ValueError(f"Reached the end of the raw string buffer {raw_string_buffer} without finding the "
-                                 f"termination character {self.termination_character}") from exc
+                                 f"termination character {self.termination_character}")
             parsed_string = raw_string_buffer.read_as_bytes(tchar_byte_index * 8).decode(self.encoding)
         else:
             # Indicates there is no further parsing. The raw string value is the whole string value.
